@@ -18,8 +18,8 @@ pub struct FileStack {
     user_inputs: HashSet<PathBuf>,
     libraries: Vec<Library>,
     stack: Vec<PathBuf>,
-    /// The include statement which added a file to the stack (the first one).
-    included_from: HashMap<PathBuf, Include>,
+    /// The include statements which refer to a file.
+    included_from: HashMap<PathBuf, Vec<Include>>,
 }
 
 #[derive(Debug)]
@@ -43,6 +43,10 @@ impl FileStack {
         };
         result.add_libraries(libs, reports);
         result.add_files(paths, reports);
+        // The files are read in the order of their paths, so that the file IDs (and with them
+        // which one of two definitions with the same name is kept) do not depend on the order
+        // in which the files were given. (The last file on the stack is read first.)
+        result.stack.sort_unstable_by(|left, right| right.cmp(left));
         result.user_inputs = result.stack.iter().cloned().collect::<HashSet<_>>();
 
         result
@@ -119,9 +123,9 @@ impl FileStack {
         match fs::canonicalize(&location) {
             // A directory is not a file that can be included.
             Ok(path) if !path.is_dir() => {
+                self.included_from.entry(path.clone()).or_default().push(include.clone());
                 if !self.black_paths.contains(&path) {
                     debug!("adding local or absolute include `{}`", location.display());
-                    self.included_from.entry(path.clone()).or_insert_with(|| include.clone());
                     self.stack.push(path);
                 }
                 Ok(())
@@ -140,7 +144,7 @@ impl FileStack {
                 debug!("searching for `{}` in `{}`", include.path, lib.path.display());
                 if let Some(path) = fs::canonicalize(&libpath).ok().filter(|path| !path.is_dir()) {
                     debug!("adding include `{}` from directory", libpath.display());
-                    self.included_from.entry(path.clone()).or_insert_with(|| include.clone());
+                    self.included_from.entry(path.clone()).or_default().push(include.clone());
                     self.stack.push(path);
                     return Ok(());
                 }
@@ -153,7 +157,8 @@ impl FileStack {
                         debug!("adding include `{}` from file", lib.path.display());
                         self.included_from
                             .entry(lib.path.clone())
-                            .or_insert_with(|| include.clone());
+                            .or_default()
+                            .push(include.clone());
                         self.stack.push(lib.path.clone());
                         return Ok(());
                     }
@@ -191,13 +196,13 @@ impl FileStack {
         self.user_inputs.contains(path)
     }
 
-    /// Returns the include statement which added the file to the stack, if the file is not
-    /// one of the files given by the user.
-    pub fn included_from(&self, path: &PathBuf) -> Option<&Include> {
+    /// Returns the include statements which refer to the file, if the file is not one of the
+    /// files given by the user.
+    pub fn included_from(&self, path: &PathBuf) -> &[Include] {
         if self.is_user_input(path) {
-            None
+            &[]
         } else {
-            self.included_from.get(path)
+            self.included_from.get(path).map_or(&[], |includes| includes.as_slice())
         }
     }
 }
